@@ -173,6 +173,31 @@ def check(tier, seed):
                                                        "ResolverError.to_dict", "ExecutionError.to_dict", "coerce_float"], "bound": "%d requests" % n})
     run.sample({"request": texts[0][:37], "stage": "syntax", "contract": "strict JSON; errors[*].locations = [{line, column}] 1-based inside the text; no data entry"})
     run.assume("response assembly (GraphQLResult.response, to_dict of the error classes) has no deductive obligation: evaluated at run time on the enumerated requests")
+    # --- request-level validators: the verdict that decides "data omitted" is the one of THIS request's validators, whatever ran before ---------
+    from py_gql.exc import ValidationError
+
+    def reject_everything(schema_, doc_, variables_=None):
+        return [ValidationError("rejected by the request's own validator", [doc_.definitions[0]])]
+
+    def accept_everything(schema_, doc_, variables_=None):
+        return []
+    q = "{ me { name } count }"
+    history = [("default", None), ("rejecting", [reject_everything]), ("default-again", None), ("accepting", [accept_everything]), ("rejecting-again", [reject_everything])]
+    for label, validators in history:
+        n += 1
+        w = {"query": q, "validators": label, "history": [h for h, _v in history[:history.index((label, validators))]]}
+        try:
+            res = process_graphql_query(schema, q, validators=validators, context=H.Ctx({}))
+        except Exception as e:
+            run.violation("response:every-request-returns-a-result", "request raised %r" % (e,), dict(w, exc=type(e).__name__), True)
+            continue
+        resp = res.response()
+        rejected = validators is not None and validators[0] is reject_everything
+        if rejected and ("data" in resp or not resp.get("errors")):
+            run.violation("response:data-omitted-when-validation-fails", "the request's own validator rejects the document, yet the response is %r" % (
+                {k: (v if k != "data" else "...") for k, v in resp.items()},), w, True)
+        if not rejected and ("data" not in resp or resp.get("errors")):
+            run.violation("response:data-present-when-validation-passes", "the request's validators accept the document, yet the response has keys %r" % (sorted(resp),), w, True)
     engine_p.run(run, 'C10')
     return run.finish("other", "trace contracts over every syntactic path of the real function (Engine P, unbounded in the inputs, values abstracted) + bounded stand-in: response-format contracts on every enumerated request outcome (all failure stages, every truncation point)",
                       checker_cmd="./check C10 --tier %s" % tier)
